@@ -511,6 +511,34 @@ func genWorld(r *hx.Rng, k *kase) {
 	hx.Shuffle(r, k.Workloads)
 }
 
+// genBigWorld: 13-40 nodes nXX spread over 2-3 pods (node nXX in pod p(XX mod pods)), all up:
+// large enough that an unstable sort (sort.Slice beyond 12 elements) scrambles equal keys
+func genBigWorld(r *hx.Rng, k *kase, n int) {
+	pods := r.Range(2, 3)
+	for i := 0; i < n; i++ {
+		k.Nodes = append(k.Nodes, node{N: fmt.Sprintf("n%02d", i), Pod: fmt.Sprintf("p%d", i%pods), Labels: map[string]string{}, Up: true, Test: true})
+	}
+	hx.Shuffle(r, k.Nodes)
+}
+
+// bigCase: a helper (or create/capacity) over an include list naming most of a big world, shuffled
+func bigCase(r *hx.Rng, n int, kind string) *kase {
+	k := &kase{Op: "locks", Backend: "etcd", Kind: kind, Fail: -1, Workloads: []wl{}, IDs: []string{}, Rollback: []string{}}
+	genBigWorld(r, k, n)
+	inc := []string{}
+	for _, nd := range k.Nodes {
+		if r.Chance(92) {
+			inc = append(inc, nd.N)
+		}
+	}
+	if r.Chance(30) && len(inc) > 0 {
+		inc = append(inc, inc[r.Intn(len(inc))]) // a repeat
+	}
+	hx.Shuffle(r, inc)
+	k.NF = nfilter{Inc: inc, Exc: []string{}, Labels: map[string]string{}, All: true}
+	return k
+}
+
 func genFilter(r *hx.Rng, k *kase) nfilter {
 	f := nfilter{Inc: []string{}, Exc: []string{}, Labels: map[string]string{}}
 	if r.Chance(55) { // include list: shuffled, with repeats, across pods, sometimes a missing name
@@ -641,6 +669,10 @@ func corpus() []*kase {
 		mk("locks", "nodespod", []string{"n1", "n2"}), // D10: plock_pa,plock_pb ...
 		mk("locks", "nodespod", []string{"n2", "n1"}), // ... vs plock_pb,plock_pa
 		mk("locks", "create", []string{"n2", "n1", "n2"}),
+		bigCase(hx.NewRng(13), 13, "nodesop"),
+		bigCase(hx.NewRng(14), 13, "nodespod"),
+		bigCase(hx.NewRng(30), 30, "nodesop"),
+		bigCase(hx.NewRng(64), 64, "nodesop"),
 		{Op: "locks", Kind: "nesting-scan", Backend: "etcd", Fail: -1, Nodes: []node{}, Workloads: []wl{}, IDs: []string{}, Rollback: []string{},
 			NF: nfilter{Inc: []string{}, Exc: []string{}, Labels: map[string]string{}}},
 	}
@@ -689,6 +721,10 @@ func TestGen(t *testing.T) {
 		emit(k)
 	}
 	for i := 0; i < n; i++ {
+		if want == "locks" && i%25 == 7 { // include lists of 13-40 nodes interleaved over pods
+			emit(bigCase(r, r.Range(13, 40), hx.Pick(r, "nodesop", "nodesop", "nodespod", "capacity")))
+			continue
+		}
 		k := &kase{Workloads: []wl{}, Fail: -1}
 		genWorld(r, k)
 		if want == "filter" {
